@@ -563,7 +563,9 @@ package psatoken
 //@   property C11 C05 C13
 //@   requires o != nil && inputComps(vals)
 //@   ensures[iff] (ret == nil) == inputCompsValid(vals)
-//@   ensures[set] ret == nil ==> len(o.values) == len(old(o.values)) + len(vals) && forall(j, 0, len(old(o.values)), o.values[j] == old(o.values[j])) && forall(j, 0, len(vals), o.values[len(old(o.values))+j] == vals[j].(*SwComponent))
+//@   ensures[set-len] ret == nil ==> len(o.values) == len(old(o.values)) + len(vals)
+//@   ensures[set-prefix] ret == nil ==> forall(p, 0, len(old(o.values)), o.values[p] == old(o.values)[p])
+//@   ensures[set-suffix] ret == nil ==> forall(p, len(old(o.values)), len(o.values), o.values[p] == vals[p-len(old(o.values))].(*SwComponent))
 //@   ensures[unchanged] ret != nil ==> o.values == old(o.values)
 //@   ensures[class] ret != nil ==> errOnly(ret, ErrMissingMandatory) || errOnly(ret, ErrWrongSyntax)
 //@   modifies o.values, elems(o.values)
@@ -945,13 +947,13 @@ package psatoken
 
 //@ func (*Evidence).GetInstanceID
 //@   property C05 C17 C18
-//@   requires e != nil && e.Claims != nil
+//@   requires e != nil && e.Claims != nil && refOf(e.Claims) != 0
 //@   ensures[fresh] ret == nil || fresh(ret)
 //@   modifies nothing
 
 //@ func (*Evidence).GetImplementationID
 //@   property C05 C17 C18
-//@   requires e != nil && e.Claims != nil
+//@   requires e != nil && e.Claims != nil && refOf(e.Claims) != 0
 //@   ensures[fresh] ret == nil || fresh(ret)
 //@   modifies nothing
 
